@@ -24,7 +24,7 @@ RULE = (
     "reference-encoder-written) with bit flips, byte inserts / deletes, splices of two streams, truncations, duplicated "
     "frames; (c) structure-aware hostile streams built with my wire codec: declared table sizes 4097..2^32-1, frame / row / "
     "string lengths up to 2^62, quoted triples nested 1..300, options rows in odd places, 10^4 empty frames, ids 2^32-1, "
-    "invalid UTF-8, over-long varints, short typed literals that declare huge magnitudes (1E+200000000 and the like; alone, and repeated by following statements through omitted slots), three pairs of ~200 KB streams that differ only in a declared table size (peak RSS may differ by at most 48 MiB), plus four fixed large inputs (4*10^5 leading / 10^6 / 3*10^5 trailing empty frames, "
+    "invalid UTF-8, over-long varints, short typed literals that declare huge magnitudes (1E+200000000 and the like; alone, and repeated by following statements through omitted slots), two pairs of frames with 1.25*10^4 / 10^5 minimal rows (CPU time of all entry points may grow by at most 12x for 8x the rows, confirmed by a second measurement), three pairs of ~200 KB streams that differ only in a declared table size (peak RSS may differ by at most 48 MiB), plus four fixed large inputs (4*10^5 leading / 10^6 / 3*10^5 trailing empty frames, "
     "5*10^4 rows in one frame); each through parse_jelly_flat, parse_jelly_grouped and parse_jelly_to_graph of both "
     "integrations, from BytesIO, from a non-seekable short-reading raw source and from a BufferedReader over a non-seekable source whose first reads deliver 1 and 2 bytes; (d) atheris coverage-guided campaigns on "
     "the four flat / grouped entry points with a structure-aware custom mutator, seeded and empty corpus. Oracle, enforced "
@@ -278,7 +278,9 @@ def _child(wfd, inputs):
     past = []
     rss_jump = None
     last_rss = base
+    cpu = []
     for i, data in enumerate(inputs):
+        c0 = time.process_time()
         for entry in ENTRIES:
             # progress marker per call: the supervisor allows each call TIME_LIMIT (inputs up to 64 KiB) before it
             # declares a hang
@@ -294,13 +296,14 @@ def _child(wfd, inputs):
                 bad.append((i, entry, r))
             if dt > TIME_LIMIT and len(data) <= 65536:
                 bad.append((i, entry, f"took {dt:.1f}s"))
+        cpu.append(time.process_time() - c0)
         past.append(past_options(data))
         rss = resource.getrusage(resource.RUSAGE_SELF).ru_maxrss
         if rss - last_rss > RSS_LIMIT_KB and rss_jump is None:
             rss_jump = (i, rss - last_rss)
         last_rss = max(last_rss, rss)
     send(["done", {"worst_t": worst_t, "worst_i": worst_i, "bad": bad, "rss_growth_kb": last_rss - base,
-                   "rss_jump": rss_jump, "memerr": memerr, "past": past}])
+                   "rss_jump": rss_jump, "memerr": memerr, "past": past, "cpu": cpu}])
 
 
 def supervise(inputs, timeout):
@@ -386,6 +389,16 @@ def check_input(data: bytes):
 
 def check_case(case):
     if case.get("hex") is None:
+        if "scaling_pair" in case:
+            for label, small, big in scaling_pairs():
+                if label == case["scaling_pair"]:
+                    r1, r2 = supervise([small], 300), supervise([big], 600)
+                    if r1["status"] != "ok" or r2["status"] != "ok":
+                        return Violation("C17:hang", f"{label}: {r1['status']} / {r2['status']}", case)
+                    c1, c2 = r1["cpu"][0], r2["cpu"][0]
+                    if c2 > 5.0 and c2 > SCALING_FACTOR_LIMIT * max(c1, 0.05):
+                        return Violation("C17:superlinear-time", f"{label}: {c1:.2f} s -> {c2:.2f} s", case)
+            return None
         if "declared_pair" in case:
             for field, small, big in declared_size_pairs():
                 if field == case["declared_pair"]:
@@ -572,9 +585,49 @@ def declared_size_pairs():
 DECLARED_DIFF_LIMIT_KB = 48 * 1024
 
 
+def scaling_pairs():
+    """One frame of n and of 8n minimal rows (each statement repeats the previous one): work must grow with what the input
+    contains - roughly linearly - not with its square."""
+    opts = {"physical_type": 1, "logical_type": 1, "max_name_table_size": 16, "max_prefix_table_size": 8,
+            "max_datatype_table_size": 8, "version": 1}
+    first = ("triple", {"s": ("bnode", "a"), "p": ("bnode", "b"), "o": ("lit", "x", None)})
+    out = []
+    for delimited in (True, False):
+        pair = []
+        for n in (12_500, 100_000):
+            rows = [("options", opts), first] + [("triple", {"o": ("lit", "y", None)}), ("triple", {"o": ("lit", "x", None)})] * (n // 2)
+            pair.append(wire.enc_stream([{"rows": rows, "metadata": []}], delimited))
+        out.append(("delimited" if delimited else "nondelimited", pair[0], pair[1]))
+    return out
+
+
+SCALING_FACTOR_LIMIT = 12.0   # 8x the rows: linear is a factor of 8 (measured 6.3..7.9 on the pinned tree); confirmed by a second measurement
+
+
 def run_fixed(spec, acc):
     import hashlib
 
+    for label, small, big in scaling_pairs():
+        r1, r2 = supervise([small], 300), supervise([big], 600)
+        acc.evaluations += 2
+        acc.counters["scaling_pairs"] += 1
+        if r1["status"] != "ok" or r2["status"] != "ok":
+            if "C17:hang" not in set(spec["known"]):
+                acc.violations.append(Violation("C17:hang", f"{label} frame of 10^5 minimal rows ({len(big)} bytes): {r2['status']} / "
+                                                f"{r1['status']}", {"kind": "bytes", "hex": None, "len": len(big), "scaling_pair": label}).to_json())
+                return
+            continue
+        c1, c2 = r1["cpu"][0], r2["cpu"][0]
+        if c2 > 5.0 and c2 > SCALING_FACTOR_LIMIT * max(c1, 0.05):
+            # measure again before believing it (CPU time, but the machine may be busy)
+            r1b, r2b = supervise([small], 300), supervise([big], 600)
+            if r1b["status"] == "ok" and r2b["status"] == "ok":
+                c1, c2 = max(c1, r1b["cpu"][0]), min(c2, r2b["cpu"][0])
+        if c2 > 5.0 and c2 > SCALING_FACTOR_LIMIT * max(c1, 0.05) and "C17:superlinear-time" not in set(spec["known"]):
+            acc.violations.append(Violation("C17:superlinear-time", f"{label}: 8x the rows cost {c2 / max(c1, 0.05):.0f}x the CPU time "
+                                            f"({c1:.2f} s -> {c2:.2f} s for {len(small)} -> {len(big)} bytes)",
+                                            {"kind": "bytes", "hex": None, "len": len(big), "scaling_pair": label}).to_json())
+            return
     for field, small, big in declared_size_pairs():
         r1 = supervise([small], 120)
         r2 = supervise([big], 120)
